@@ -210,13 +210,16 @@ def l2_records(pa, insts, backends, modes, rng, violations, limit=None):
         keep = [i for i in insts if "hi" in i.get("universe", "")]
         rest = [i for i in insts if "hi" not in i.get("universe", "")]
         insts = keep + rng.sample(rest, max(0, min(len(rest), limit - len(keep))))
+    clean = []
     for p in insts:
         inst = p["inst"]
         n = inst["n"]
-        sizes = inst["sizes"]
         D = [[(inst["D"][a][b] if a < b else []) for b in range(n)] for a in range(n)]
         D = [[[list(row) for row in D[a][b]] for b in range(n)] for a in range(n)]
-        c, d = ar.realise_table(pa, {"n": n, "sizes": sizes, "D": D, "de": inst["de"]}, G_SCALE)
+        clean.append({"n": n, "sizes": inst["sizes"], "D": D, "de": inst["de"]})
+    realised = ar.realise_batch(pa, clean, G_SCALE)
+    for p, ci, (c, d) in zip(insts, clean, realised):
+        inst, n, sizes, D = p["inst"], ci["n"], ci["sizes"], ci["D"]
         if sum(1 for s in sizes if s >= 0) < 2 or not c:
             continue
         recs += run_modes(pa, c, d, D, inst["de"], G_SCALE, tol=1, band=0, backends=backends, modes=modes,
